@@ -1,7 +1,7 @@
 #!/bin/sh
 # MANIFEST.setup_cmd: build everything the checks need from files on disk (offline).
 set -e
-cd /verif
+cd "$(dirname "$0")/.."
 export CARGO_NET_OFFLINE=true
 for m in spec/*.tla; do (cd spec && tla-sany "$(basename $m)" > /dev/null) || { echo "SANY failed on $m"; exit 1; }; done
 sh tools/build.sh > /dev/null
